@@ -1,6 +1,7 @@
 package shapes
 
 import (
+	"archive/tar"
 	"bytes"
 	"compress/gzip"
 	"context"
@@ -865,6 +866,10 @@ func (e *env) runTokens(cs Case, idx int) error {
 		e.call("loader.LoadDir(.helmignore)", func() error { _, err := loader.LoadDir(dir); return err })
 	case "recursion":
 		return e.runRecursion(cs)
+	case "layout":
+		return e.runLayout(cs)
+	case "crds":
+		return e.runCRDs(cs)
 	default:
 		return fmt.Errorf("unknown token family %q", cs.Fam)
 	}
@@ -988,4 +993,174 @@ func (e *env) runValuesReaders(cs Case, idx int) {
 		_, err := o.MergeValues(getter.Providers{})
 		return err
 	})
+}
+
+// ---------------------------------------------------------------------------------------------
+// family "layout": which metadata files a chart and its vendored subchart have
+
+const legacyRequirements = "dependencies:\n- name: sub\n  version: 0.1.0\n  repository: https://repo.c20.test/charts\n"
+const legacyLock = "dependencies:\n- name: sub\n  version: 0.1.0\n  repository: https://repo.c20.test/charts\ndigest: sha256:00\ngenerated: \"2024-01-02T03:04:05Z\"\n"
+
+// rawArchive packs files (names relative to the chart root) under prefix/ into a .tgz, whatever they are.
+func rawArchive(prefix string, files []*loader.BufferedFile) []byte {
+	var buf bytes.Buffer
+	gz := gzip.NewWriter(&buf)
+	tw := tar.NewWriter(gz)
+	for _, f := range files {
+		tw.WriteHeader(&tar.Header{Name: prefix + "/" + f.Name, Mode: 0o644, Size: int64(len(f.Data)), Typeflag: tar.TypeReg})
+		tw.Write(f.Data)
+	}
+	tw.Close()
+	gz.Close()
+	return buf.Bytes()
+}
+
+func (e *env) runLayout(cs Case) error {
+	sw := map[int]bool{}
+	for _, t := range cs.Toks {
+		if t < 1 || t > 7 {
+			return fmt.Errorf("token %d outside the layout alphabet", t)
+		}
+		sw[t] = true
+	}
+	// 1 top Chart.yaml absent, 2 top requirements.yaml, 3 subchart Chart.yaml absent, 4 subchart requirements.yaml,
+	// 5 subchart vendored as charts/sub-0.1.0.tgz, 6 top requirements.lock, 7 subchart requirements.lock
+	sub := []*loader.BufferedFile{{Name: "values.yaml", Data: []byte(nominalSubValues)}, {Name: "templates/cm.yaml", Data: []byte(tplSubConfigMap)}}
+	if !sw[3] {
+		sub = append(sub, &loader.BufferedFile{Name: "Chart.yaml", Data: []byte(nominalSubChartYAML)})
+	}
+	if sw[4] {
+		sub = append(sub, &loader.BufferedFile{Name: "requirements.yaml", Data: []byte("dependencies: []\n")})
+	}
+	if sw[7] {
+		sub = append(sub, &loader.BufferedFile{Name: "requirements.lock", Data: []byte(legacyLock)})
+	}
+	top := []*loader.BufferedFile{{Name: "values.yaml", Data: []byte(nominalValues)}, {Name: "templates/cm.yaml", Data: []byte(tplSubConfigMap)}}
+	if !sw[1] {
+		top = append(top, &loader.BufferedFile{Name: "Chart.yaml", Data: []byte("apiVersion: v1\nname: parent\nversion: 1.2.3\n")})
+	}
+	if sw[2] {
+		top = append(top, &loader.BufferedFile{Name: "requirements.yaml", Data: []byte(legacyRequirements)})
+	}
+	if sw[6] {
+		top = append(top, &loader.BufferedFile{Name: "requirements.lock", Data: []byte(legacyLock)})
+	}
+	if sw[5] {
+		top = append(top, &loader.BufferedFile{Name: "charts/sub-0.1.0.tgz", Data: rawArchive("sub", sub)})
+	} else {
+		for _, f := range sub {
+			top = append(top, &loader.BufferedFile{Name: "charts/sub/" + f.Name, Data: f.Data})
+		}
+	}
+	names := []string{}
+	for _, f := range top {
+		names = append(names, f.Name)
+	}
+	sort.Strings(names)
+	e.obs.Input = strings.Join(names, " ")
+	e.call("loader.LoadFiles", func() error {
+		cp := make([]*loader.BufferedFile, len(top))
+		for i, f := range top {
+			cp[i] = &loader.BufferedFile{Name: f.Name, Data: append([]byte(nil), f.Data...)}
+		}
+		_, err := loader.LoadFiles(cp)
+		return err
+	})
+	dir := filepath.Join(e.dir, "layout", "parent")
+	os.RemoveAll(filepath.Join(e.dir, "layout"))
+	for _, f := range top {
+		p := filepath.Join(dir, f.Name)
+		os.MkdirAll(filepath.Dir(p), 0o755)
+		os.WriteFile(p, f.Data, 0o644)
+	}
+	e.call("loader.LoadDir", func() error { _, err := loader.LoadDir(dir); return err })
+	e.call("loader.Load(dir)", func() error { _, err := loader.Load(dir); return err })
+	arch := filepath.Join(e.dir, "layout", "parent-1.2.3.tgz")
+	os.WriteFile(arch, rawArchive("parent", top), 0o644)
+	e.call("loader.LoadArchive", func() error {
+		f, err := os.Open(arch)
+		if err != nil {
+			return err
+		}
+		defer f.Close()
+		_, err = loader.LoadArchive(f)
+		return err
+	})
+	e.call("loader.LoadFile", func() error { _, err := loader.LoadFile(arch); return err })
+	e.call("lint.RunAll", func() error { lint.RunAll(dir, map[string]any{}, "ns"); return nil })
+	e.call("action.Dependency.List", func() error { return action.NewDependency().List(dir, io.Discard) })
+	e.call("action.Show", func() error { _, err := action.NewShow(action.ShowAll, &action.Configuration{}).Run(arch); return err })
+	return nil
+}
+
+// ---------------------------------------------------------------------------------------------
+// family "crds": the documents of one file under crds/, through `helm template`
+
+var crdDocs = []string{
+	"apiVersion: apiextensions.k8s.io/v1\nkind: CustomResourceDefinition\nmetadata:\n  name: widgets.c20.test\nspec:\n  group: c20.test\n  names: {kind: Widget, plural: widgets}\n  scope: Namespaced\n  versions: [{name: v1, served: true, storage: true}]",
+	"apiVersion: apiextensions.k8s.io/v1\nkind: CustomResourceDefinition\nmetadata:\n  name: gadgets.c20.test\nspec:\n  group: c20.test\n  names: {kind: Gadget, plural: gadgets}\n  scope: Cluster\n  versions: [{name: v1, served: true, storage: true}]",
+	"# only a comment",
+	"",
+	"null",
+}
+
+func (e *env) runCRDs(cs Case) error {
+	parts := []string{}
+	for _, t := range cs.Toks {
+		if t < 1 || t > len(crdDocs) {
+			return fmt.Errorf("token %d outside the crds alphabet", t)
+		}
+		parts = append(parts, crdDocs[t-1])
+	}
+	text := strings.Join(parts, "\n---\n") + "\n"
+	e.obs.Input = short([]byte(text))
+	dir := filepath.Join(e.dir, "crdchart", "withcrds")
+	os.RemoveAll(filepath.Join(e.dir, "crdchart"))
+	for name, data := range map[string]string{
+		"Chart.yaml":        "apiVersion: v2\nname: withcrds\nversion: 0.1.0\n",
+		"values.yaml":       nominalSubValues,
+		"templates/cm.yaml": tplSubConfigMap,
+		"crds/crd.yaml":     text,
+	} {
+		p := filepath.Join(dir, name)
+		os.MkdirAll(filepath.Dir(p), 0o755)
+		os.WriteFile(p, []byte(data), 0o644)
+	}
+	os.Setenv("HELM_DRIVER", "memory")
+	for _, flags := range [][]string{
+		{"--include-crds", "--show-only", "templates/cm.yaml"},
+		{"--include-crds", "--show-only", "crds/crd.yaml"},
+		{"--include-crds"},
+		{"--show-only", "templates/cm.yaml"},
+		{},
+	} {
+		flags := flags
+		e.call("helm template "+strings.Join(flags, " "), func() error {
+			cfg := &action.Configuration{Releases: storage.Init(driver.NewMemory()), KubeClient: &kubefake.PrintingKubeClient{Out: io.Discard},
+				Capabilities: chartutil.DefaultCapabilities}
+			_, err := runCLI(cfg, append([]string{"template", "r", dir, "--namespace", "ns"}, flags...))
+			return err
+		})
+	}
+	e.call("loader.LoadDir", func() error {
+		ch, err := loader.LoadDir(dir)
+		if err == nil {
+			ch.CRDObjects()
+		}
+		return err
+	})
+	e.call("action.Install(dry-run,client-only,include-crds)", func() error {
+		ch, err := loader.LoadDir(dir)
+		if err != nil {
+			return err
+		}
+		cfg := &action.Configuration{Releases: storage.Init(driver.NewMemory()), KubeClient: &kubefake.PrintingKubeClient{Out: io.Discard},
+			Capabilities: chartutil.DefaultCapabilities}
+		in := action.NewInstall(cfg)
+		in.DryRun, in.ClientOnly, in.ReleaseName, in.Namespace, in.Replace, in.IncludeCRDs = true, true, "r", "ns", true, true
+		_, err = in.Run(ch, map[string]any{})
+		return err
+	})
+	e.call("lint.RunAll", func() error { lint.RunAll(dir, map[string]any{}, "ns"); return nil })
+	return nil
 }
